@@ -324,6 +324,9 @@ Lemma tick_b_keeps cfg tr st : let tr' := track_tick_b cfg tr st in
   /\ t_cur tr' = t_cur tr + tau cfg /\ t_max tr' = t_max tr /\ t_muted tr' = t_muted tr.
 Proof. unfold track_tick_b. destruct (st && _); repeat split. Qed.
 
+Lemma tick_b_keeps2 cfg tr st : t_started (track_tick_b cfg tr st) = t_started tr /\ t_next (track_tick_b cfg tr st) = t_next tr.
+Proof. unfold track_tick_b. destruct (st && _); split; reflexivity. Qed.
+
 (* StopIteration leaves Track.tick's try block exactly when the due track's loop meets the end of the stream or the
    count limit (a callback raising StopIteration is the other source: tick_one's TCallback branch) *)
 Lemma tick_a_stop_iff cfg nowT tr n :
@@ -385,4 +388,273 @@ Proof.
   split.
   - replace t with (t_id (set_muted tr true)) at 1 by exact Eid. apply (find_put_same _ _ tr). cbn [t_id set_muted]. rewrite Eid. exact F.
   - replace t with (t_id (set_muted tr false)) at 1 by exact Eid. apply (find_put_same _ _ tr). cbn [t_id set_muted]. rewrite Eid. exact F.
+Qed.
+
+(** * 1. event counts *)
+(* Track.get_next_event: StopIteration without touching anything once the count limit is reached; otherwise one
+   pull, and the count goes up by exactly one per event delivered *)
+Lemma gne_spec tr :
+  (count_exhausted tr = true -> get_next_event tr = (GStop, tr))
+  /\ (count_exhausted tr = false ->
+      match fst (pull (t_stream tr)) with
+      | REvent e => get_next_event tr = (GEvent e, set_count (set_stream tr (snd (pull (t_stream tr)))) (t_count tr + 1))
+      | RStopIter => get_next_event tr = (GStop, set_stream tr (snd (pull (t_stream tr))))
+      | RRaise => get_next_event tr = (GRaise, set_stream tr (snd (pull (t_stream tr))))
+      end).
+Proof.
+  unfold get_next_event. split; intros ->; [reflexivity|].
+  destruct (pull (t_stream tr)) as [[| |e] s']; reflexivity.
+Qed.
+Lemma count_exhausted_iff tr : count_exhausted tr = true <->
+  exists m, t_max tr = Some m /\ m <> 0 /\ m <= t_count tr.
+Proof.
+  unfold count_exhausted. destruct (t_max tr) as [m|].
+  - rewrite andb_true_iff, negb_true_iff, Z.eqb_neq, Z.leb_le. split.
+    + intros [H1 H2]. exists m. auto.
+    + intros [m' [E [H1 H2]]]. inversion E; subst. auto.
+  - split; [discriminate|intros [m [E _]]; discriminate E].
+Qed.
+
+(* the number of ticks, among the first j, on which an event was handed to perform_event *)
+Fixpoint perf_run (cfg : config) (nowT : Z) (tr : track) (n : nat) (j : nat) : Z :=
+  match j with
+  | O => 0
+  | S j' => let '(tr', _, n', _) := track_tick cfg nowT tr n in
+            (match tick_event cfg tr with Some _ => 1 | None => 0 end) + perf_run cfg (nowT + tau cfg) tr' n' j'
+  end.
+
+Lemma track_run_add cfg : forall a b nowT tr n,
+  track_run cfg nowT tr n (a + b) =
+  track_run cfg (nowT + Z.of_nat a * tau cfg) (fst (track_run cfg nowT tr n a)) (snd (track_run cfg nowT tr n a)) b.
+Proof.
+  induction a as [|a IH]; intros b nowT tr n.
+  - simpl. replace (nowT + Z.of_nat 0 * tau cfg) with nowT by lia. reflexivity.
+  - cbn [Nat.add track_run]. destruct (track_tick cfg nowT tr n) as [[[tr' c] n'] res].
+    rewrite IH. replace (nowT + tau cfg + Z.of_nat a * tau cfg) with (nowT + Z.of_nat (S a) * tau cfg) by lia. reflexivity.
+Qed.
+
+Section Count.
+  Variable cfg : config.
+  Variable items : list evres.           (* the stream: one pass (or cycle) of results of next() *)
+  Variable cyclic : bool.
+  Variable mx : option Z.                (* max_event_count *)
+  Variable c0 : Z.                       (* current_event_count when the stream starts *)
+  Hypothesis Htau : 0 < tau cfg.
+  Hypothesis Hfuel : (2 <= fuel cfg)%nat.
+  Hypothesis Hfail : dev_fail cfg = None.
+  Hypothesis Hitems : forall i, (i < length items)%nat ->
+    exists e, nth i items RStopIter = REvent e /\ tau cfg <= e_dur e.
+  Hypothesis Hc0 : 0 <= c0.
+
+  Definition endless : bool := cyclic && (0 <? length items)%nat.
+  Definition cap : option Z :=
+    match mx with Some m => if m =? 0 then None else Some (Z.max 0 (m - c0)) | None => None end.
+  (* how many events the track will perform from here: min(count left, stream length); None = unbounded *)
+  Definition lim : option Z :=
+    match cap, endless with
+    | Some a, true => Some a
+    | Some a, false => Some (Z.min a (Z.of_nat (length items)))
+    | None, true => None
+    | None, false => Some (Z.of_nat (length items))
+    end.
+  Definition below (p : Z) : Prop := match lim with Some l => p < l | None => True end.
+
+  Record CInv (p : Z) (tr : track) : Prop := {
+    c_started : t_started tr = true;
+    c_items : s_items (t_stream tr) = items;
+    c_cyc : s_cyclic (t_stream tr) = cyclic;
+    c_pos : if endless then (s_pos (t_stream tr) < length items)%nat else Z.of_nat (s_pos (t_stream tr)) = p;
+    c_count : t_count tr = c0 + p;
+    c_max : t_max tr = mx;
+    c_p : 0 <= p;
+    c_le : match lim with Some l => p <= l | None => True end;
+    c_due : below p -> t_cur tr - tau cfg < t_next tr }.
+
+  Lemma below_dec p : {below p} + {lim = Some p \/ exists l, lim = Some l /\ l < p}.
+  Proof.
+    unfold below. destruct lim as [l|]; [|left; exact I].
+    destruct (Z_lt_dec p l); [left; assumption|]. right.
+    destruct (Z.eq_dec p l); [left; congruence|right; exists l; split; [reflexivity|lia]].
+  Qed.
+
+  Lemma below_not_exhausted p tr : CInv p tr -> below p -> count_exhausted tr = false.
+  Proof.
+    intros I B. destruct (count_exhausted tr) eqn:E; [|reflexivity]. exfalso.
+    apply count_exhausted_iff in E as [m [E1 [E2 E3]]].
+    rewrite (c_max _ _ I) in E1. rewrite (c_count _ _ I) in E3. pose proof (c_p _ _ I).
+    unfold below, lim, cap in B. rewrite E1 in B. replace (m =? 0) with false in B by lia.
+    destruct endless; lia.
+  Qed.
+  Lemma below_pos p tr : CInv p tr -> below p -> (s_pos (t_stream tr) < length items)%nat.
+  Proof.
+    intros I B. pose proof (c_pos _ _ I) as P. pose proof (c_p _ _ I).
+    unfold below, lim in B. destruct endless; [exact P|]. destruct cap; lia.
+  Qed.
+
+  (* below the limit the next event is delivered and lasts at least a tick *)
+  Lemma gne_below p tr : CInv p tr -> below p ->
+    exists e tr1, get_next_event tr = (GEvent e, tr1) /\ tau cfg <= e_dur e
+      /\ t_started tr1 = true /\ s_items (t_stream tr1) = items /\ s_cyclic (t_stream tr1) = cyclic
+      /\ (if endless then (s_pos (t_stream tr1) < length items)%nat else Z.of_nat (s_pos (t_stream tr1)) = p + 1)
+      /\ t_count tr1 = c0 + (p + 1) /\ t_max tr1 = mx /\ t_cur tr1 = t_cur tr /\ t_next tr1 = t_next tr.
+  Proof.
+    intros I B. pose proof (below_not_exhausted p tr I B) as NE. pose proof (below_pos p tr I B) as Hpos.
+    destruct (Hitems _ Hpos) as [e [He Hd]].
+    pose proof (c_items _ _ I) as Ci. pose proof (c_cyc _ _ I) as Cc. pose proof (c_pos _ _ I) as Cp.
+    assert (P : pull (t_stream tr) = (REvent e,
+              mkStream items (if cyclic && (S (s_pos (t_stream tr)) =? length items)%nat then 0%nat else S (s_pos (t_stream tr))) cyclic)).
+    { unfold pull. rewrite Ci, Cc. replace (s_pos (t_stream tr) <? length items)%nat with true by lia. rewrite He. reflexivity. }
+    destruct (gne_spec tr) as [_ G]. specialize (G NE). rewrite P in G. cbn [fst snd] in G.
+    eexists. eexists. split; [exact G|]. split; [exact Hd|].
+    cbn [t_started t_stream t_count t_max t_cur t_next set_count set_stream s_items s_cyclic s_pos].
+    split; [apply (c_started _ _ I)|]. split; [reflexivity|]. split; [reflexivity|].
+    split; [|split; [rewrite (c_count _ _ I); lia|split; [apply (c_max _ _ I)|split; reflexivity]]].
+    unfold endless in *. destruct cyclic; cbn [andb] in *.
+    - destruct (0 <? length items)%nat eqn:Z0.
+      + destruct (S (s_pos (t_stream tr)) =? length items)%nat eqn:E; lia.
+      + lia.
+    - lia.
+  Qed.
+
+  (* at the limit: StopIteration, and the track is as it was *)
+  Lemma gne_at_lim p tr : CInv p tr -> lim = Some p ->
+    fst (get_next_event tr) = GStop /\ CInv p (snd (get_next_event tr))
+    /\ t_cur (snd (get_next_event tr)) = t_cur tr /\ t_next (snd (get_next_event tr)) = t_next tr
+    /\ t_offs (snd (get_next_event tr)) = t_offs tr.
+  Proof.
+    intros I Lp. destruct (gne_spec tr) as [G1 G2].
+    destruct (count_exhausted tr) eqn:E.
+    - rewrite (G1 eq_refl). cbn [fst snd]. auto.
+    - specialize (G2 eq_refl).
+      assert (P : pull (t_stream tr) = (RStopIter, t_stream tr)).
+      { pose proof (c_pos _ _ I) as Cp. pose proof (c_items _ _ I) as Ci. pose proof (c_count _ _ I) as Cn.
+        pose proof (c_max _ _ I) as Cm. pose proof (c_p _ _ I) as C0.
+        assert (NE : ~ (exists m, t_max tr = Some m /\ m <> 0 /\ m <= t_count tr)).
+        { intros H. apply count_exhausted_iff in H. congruence. }
+        unfold pull. rewrite Ci.
+        assert (Hge : (length items <= s_pos (t_stream tr))%nat).
+        { unfold lim, cap in Lp. rewrite Cm, Cn in NE.
+          destruct mx as [m|].
+          - destruct (m =? 0) eqn:M0.
+            + destruct endless; [discriminate|]. inversion Lp. lia.
+            + destruct endless.
+              * exfalso. apply NE. exists m. split; [reflexivity|]. inversion Lp. lia.
+              * inversion Lp as [Lp']. destruct (Z_le_gt_dec (Z.max 0 (m - c0)) (Z.of_nat (length items))).
+                -- exfalso. apply NE. exists m. split; [reflexivity|]. lia.
+                -- lia.
+          - destruct endless; [discriminate|]. inversion Lp. lia. }
+        replace (s_pos (t_stream tr) <? length items)%nat with false by lia. reflexivity. }
+      rewrite P in G2. cbn [fst snd] in G2. rewrite G2. cbn [fst snd].
+      split; [reflexivity|]. split; [|repeat split].
+      destruct I. constructor; auto.
+  Qed.
+
+  (* one Track.tick *)
+  Lemma count_tick p tr nowT n : CInv p tr ->
+    let '(tr', _, _, _) := track_tick cfg nowT tr n in
+    exists p', CInv p' tr'
+      /\ p' = p + (match tick_event cfg tr with Some _ => 1 | None => 0 end)
+      /\ t_cur tr' = t_cur tr + tau cfg
+      /\ (t_cur tr < t_next tr -> t_next tr' = t_next tr).
+  Proof.
+    intros I. pose proof (c_started _ _ I) as Hs.
+    destruct (Z_lt_le_dec (t_cur tr) (t_next tr)) as [Hidle|Hdue].
+    - (* nothing due *)
+      assert (D : (t_next tr <=? t_cur tr) = false) by lia.
+      unfold track_tick, track_tick_a, tick_event. rewrite Hs, D. cbn [negb].
+      exists p. split; [|split; [lia|split; [reflexivity|intros _; reflexivity]]].
+      destruct I. constructor; auto. intros B. cbn [t_cur t_next track_tick_b set_cur andb]. lia.
+    - assert (D : (t_next tr <=? t_cur tr) = true) by lia.
+      destruct (below_dec p) as [B|[Lp|[l [Ll Hl]]]].
+      + (* an event is due and delivered: exactly one pull, performed *)
+        destruct (gne_below p tr I B) as [e [tr1 [G [Hd [S1 [I1 [C1 [P1 [N1 [M1 [Cu1 Nx1]]]]]]]]]]].
+        pose proof (c_due _ _ I B) as Hnd.
+        assert (D2 : (t_next tr1 + e_dur e <=? t_cur tr1) = false) by lia.
+        pose proof (pull_loop_once (fuel cfg) tr e tr1 Hfuel D G D2) as PL.
+        unfold track_tick, track_tick_a, tick_event. rewrite Hs, D, PL, Hfail. cbn [negb].
+        pose proof (perform_keeps None nowT (set_next tr1 (t_next tr1 + e_dur e)) e n) as K.
+        pose proof (perform_no_raise nowT (set_next tr1 (t_next tr1 + e_dur e)) e n) as NR.
+        destruct (perform_event None nowT (set_next tr1 (t_next tr1 + e_dur e)) e n) as [[[tr2 calls] n'] pf].
+        destruct K as [K1 [K2 [K3 [K4 [K5 K6]]]]]. cbn [t_started t_cur t_next t_stream t_max t_count set_next] in *.
+        assert (Goal : exists p', CInv p' (track_tick_b cfg tr2 false) /\ p' = p + 1
+                       /\ t_cur (track_tick_b cfg tr2 false) = t_cur tr + tau cfg
+                       /\ (t_cur tr < t_next tr -> t_next (track_tick_b cfg tr2 false) = t_next tr)).
+        { exists (p + 1). split; [|split; [reflexivity|split; [cbn [track_tick_b andb set_cur t_cur]; lia|intros; lia]]].
+          constructor; cbn [track_tick_b andb set_cur t_started t_stream t_count t_max t_cur t_next]; try congruence.
+          - rewrite K4. exact P1.
+          - pose proof (c_p _ _ I). lia.
+          - unfold below in B. destruct lim; [lia|trivial].
+          - intros _. lia. }
+        destruct pf; try exact Goal. congruence.
+      + (* the limit has been reached: StopIteration, nothing performed, nothing changes but the clock *)
+        destruct (gne_at_lim p tr I Lp) as [G [I' [Cu [Nx Of]]]].
+        destruct (get_next_event tr) as [g tr1] eqn:GE. cbn [fst snd] in *. subst g.
+        unfold track_tick, track_tick_a, tick_event. rewrite Hs, D. cbn [negb].
+        destruct (fuel cfg) as [|f]; [lia|]. cbn [pull_loop]. rewrite D, GE.
+        destruct (tick_b_keeps cfg tr1 true) as [_ [_ [Kc [Ks [Kcu [Km _]]]]]].
+        destruct (tick_b_keeps2 cfg tr1 true) as [Kst Knx].
+        exists p. split; [|split; [lia|split; [rewrite Kcu; lia|intros; lia]]].
+        destruct I'. constructor; try (rewrite ?Kc, ?Ks, ?Km, ?Kst; assumption).
+        intros B; exfalso; unfold below in B; rewrite Lp in B; lia.
+      + exfalso. pose proof (c_le _ _ I) as H. rewrite Ll in H. lia.
+  Qed.
+
+  (** over any number of ticks: performed = pulled = count - c0, never above the limit *)
+  Theorem count_run : forall j p tr nowT n, CInv p tr ->
+    exists p', CInv p' (fst (track_run cfg nowT tr n j)) /\ p' = p + perf_run cfg nowT tr n j.
+  Proof.
+    induction j as [|j IH]; intros p tr nowT n I; [exists p; split; [exact I|simpl; lia]|].
+    cbn [track_run perf_run]. pose proof (count_tick p tr nowT n I) as T.
+    destruct (track_tick cfg nowT tr n) as [[[tr' c] n'] res]. destruct T as [p1 [I1 [E1 _]]].
+    destruct (IH p1 tr' (nowT + tau cfg) n' I1) as [p2 [I2 E2]]. exists p2. split; [exact I2|lia].
+  Qed.
+
+  (* progress: below the limit the next event comes after finitely many ticks *)
+  Lemma count_progress : forall k p tr nowT n, CInv p tr -> below p -> t_next tr <= t_cur tr + Z.of_nat k * tau cfg ->
+    exists j, CInv (p + 1) (fst (track_run cfg nowT tr n j)).
+  Proof.
+    induction k as [|k IH]; intros p tr nowT n I B Hk.
+    - exists 1%nat. cbn [track_run]. pose proof (count_tick p tr nowT n I) as T.
+      destruct (track_tick cfg nowT tr n) as [[[tr' c] n'] res] eqn:TT. destruct T as [p1 [I1 [E1 _]]]. cbn [fst].
+      assert (TE : exists e, tick_event cfg tr = Some e).
+      { destruct (gne_below p tr I B) as [e [tr1 [G [Hd [_ [_ [_ [_ [_ [_ [Cu1 Nx1]]]]]]]]]]].
+        exists e. unfold tick_event. rewrite (c_started _ _ I). cbn [negb].
+        assert (D : (t_next tr <=? t_cur tr) = true) by lia. rewrite D.
+        pose proof (c_due _ _ I B).
+        rewrite (pull_loop_once (fuel cfg) tr e tr1 Hfuel D G); [reflexivity|lia]. }
+      destruct TE as [e TE]. rewrite TE in E1. subst p1. exact I1.
+    - destruct (Z_lt_le_dec (t_cur tr) (t_next tr)) as [Hidle|Hdue].
+      + pose proof (count_tick p tr nowT n I) as T.
+        destruct (track_tick cfg nowT tr n) as [[[tr' c] n'] res] eqn:TT. destruct T as [p1 [I1 [E1 [Cu Nx]]]].
+        assert (TE : tick_event cfg tr = None).
+        { unfold tick_event. rewrite (c_started _ _ I). cbn [negb]. replace (t_next tr <=? t_cur tr) with false by lia. reflexivity. }
+        rewrite TE in E1. assert (Ep : p1 = p) by lia. clear E1. subst p1.
+        destruct (IH p tr' (nowT + tau cfg) n' I1 B) as [j Hj]; [rewrite Cu, (Nx Hidle); lia|].
+        exists (S j). cbn [track_run]. rewrite TT. exact Hj.
+      + apply (IH p tr nowT n I B). lia.
+  Qed.
+
+  (* hence a bounded track reaches its limit; and from then on performs nothing more (count_run: p' <= lim) *)
+  Theorem count_reaches : forall l, lim = Some l -> forall d p tr nowT n, CInv p tr -> l - p = Z.of_nat d ->
+    exists j, CInv l (fst (track_run cfg nowT tr n j)).
+  Proof.
+    intros l Ll. induction d as [|d IH]; intros p tr nowT n I Hd.
+    - exists 0%nat. cbn [track_run fst]. replace l with p by lia. exact I.
+    - assert (B : below p) by (unfold below; rewrite Ll; lia).
+      destruct (count_progress (Z.to_nat (t_next tr - t_cur tr)) p tr nowT n I B) as [j1 I1]; [nia|].
+      destruct (IH (p + 1) (fst (track_run cfg nowT tr n j1)) (nowT + Z.of_nat j1 * tau cfg) (snd (track_run cfg nowT tr n j1)) I1 ltac:(lia)) as [j2 I2].
+      exists (j1 + j2)%nat. rewrite track_run_add. exact I2.
+  Qed.
+End Count.
+
+(* a fresh start satisfies the invariant *)
+Lemma count_start cfg items cyclic mx c0 tr :
+  0 <= c0 -> t_started tr = true -> t_next tr = t_cur tr -> t_stream tr = mkStream items 0 cyclic ->
+  t_count tr = c0 -> t_max tr = mx -> 0 < tau cfg ->
+  CInv cfg items cyclic mx c0 0 tr.
+Proof.
+  intros Hc Hs Hn Hst Hcnt Hm Htau. constructor; auto; try (rewrite Hst; reflexivity); try lia.
+  - rewrite Hst. cbn [s_pos]. unfold endless. destruct cyclic; cbn [andb]; [|reflexivity].
+    destruct (0 <? length items)%nat eqn:E; [lia|reflexivity].
+  - unfold lim, cap. destruct mx as [m|]; [destruct (m =? 0)|]; destruct (endless items cyclic); lia.
 Qed.
